@@ -5,7 +5,7 @@ use super::common::*;
 use super::*;
 use crate::gen::{self, Tok, TPath};
 use crate::indep;
-use crate::refissuer::{ref_issue, RefOpts};
+use crate::refissuer::{ref_issue, RefOpts, RefToken};
 use crate::rng::Rng;
 use crate::Emitter;
 
@@ -66,6 +66,7 @@ pub const DEFECTS: &[&str] = &[
 ];
 
 pub fn generate(thorough: bool, seed: u64, em: &mut Emitter) {
+    generate_nested_dups(thorough, seed, em);
     let mut r = Rng::new(seed ^ 0xC12);
     let n = if thorough { 30_000 } else { 2_400 };
     for i in 0..n {
@@ -221,6 +222,51 @@ pub fn generate(thorough: bool, seed: u64, em: &mut Emitter) {
             let mut case = super::c03::make_case(&tok, &list, "accept", false, &[]);
             case.as_object_mut().unwrap().remove("clear_hint");
             case["expect"] = expectation(&tok, &claims, &list, "accept");
+            em.case("verify", case);
+        }
+    }
+}
+
+/// "the same digest embedded more than once" where one of the copies only becomes visible when an enclosing
+/// disclosure is opened: both copies inside the value of a recursive disclosure P, or one in the signed payload and
+/// one inside P; the digest's own disclosure D absent, present once or present twice, in every order. Every list
+/// that contains P shows the verifier both copies and must be rejected (holder and verifier alike).
+pub fn generate_nested_dups(thorough: bool, seed: u64, em: &mut Emitter) {
+    let mut r = Rng::new(seed ^ 0xC12D);
+    let n = if thorough { 600 } else { 60 };
+    for i in 0..n {
+        let alg = if i % 5 == 4 { *r.pick(&indep::ALGS) } else { "sha-256" };
+        let elem = i % 2 == 0;
+        let both_inside = (i / 2) % 2 == 0;
+        let salt = format!("s{}", r.next());
+        let d = if elem { disc(json!([salt, "v"])) } else { disc(json!([salt, "fresh", "v"])) };
+        let g = indep::hash(alg, &d);
+        let inner = match (elem, both_inside) {
+            (true, true) => json!({"arr": [{"...": g}, "mid", {"...": g}]}),
+            (true, false) => if r.chance(1, 2) { json!(["tail", {"...": g}]) } else { json!({"arr": [{"...": g}]}) },
+            (false, true) => json!({"_sd": [g, g], "z": 1}),
+            (false, false) => json!({"_sd": [g], "z": 1}),
+        };
+        let p = disc(json!([format!("t{}", r.next()), "p", inner]));
+        let gp = indep::hash(alg, &p);
+        let mut payload = json!({"sub": "user_42", "_sd": [gp], "_sd_alg": alg});
+        if !both_inside {
+            if elem {
+                payload["a"] = json!(["head", {"...": g}]);
+            } else {
+                payload["_sd"].as_array_mut().unwrap().push(json!(g));
+            }
+        }
+        let tok = RefToken { alg: alg.to_string(), payload: payload.clone(), discs: vec![], decoys: vec![] };
+        let lists: Vec<Vec<&String>> = vec![vec![&p], vec![&p, &d], vec![&d, &p], vec![&d, &p, &d], vec![&d, &d, &p], vec![&p, &d, &d]];
+        for (j, l) in lists.iter().enumerate() {
+            let list: Vec<String> = l.iter().map(|x| (*x).clone()).collect();
+            let mut case = super::c03::make_case(&tok, &list, "reject", true, &[d.clone(), p.clone()]);
+            case.as_object_mut().unwrap().remove("clear_hint");
+            let mut e = expectation(&tok, &payload, &list, "reject");
+            e["defect"] = json!("dup_nested");
+            case["expect"] = e;
+            case["tag"] = json!(format!("dup_nested_{}_{}_list{}", if elem { "element" } else { "member" }, if both_inside { "inside" } else { "split" }, j));
             em.case("verify", case);
         }
     }
